@@ -52,6 +52,7 @@ class UvlSerializeRelation:
         return (result == 'or') == (len(rel.children) > 1 and rel.card_min == 1 and rel.card_max == len(rel.children))
 
     def post_cardinality(rel, result):
+        # UVL writes an exact cardinality either as [n] or as [n..n]: both denote the same group
+        spelled_out = '[' + str(rel.card_min) + '..' + ('*' if rel.card_max == -1 else str(rel.card_max)) + ']'
         return implies(result not in ['mandatory', 'optional', 'alternative', 'or'],
-                       result == ('[' + str(rel.card_min) + ']' if rel.card_min == rel.card_max
-                                  else '[' + str(rel.card_min) + '..' + ('*' if rel.card_max == -1 else str(rel.card_max)) + ']'))
+                       result == spelled_out or (rel.card_min == rel.card_max and result == '[' + str(rel.card_min) + ']'))
